@@ -38,6 +38,7 @@ type Config struct {
 	Levels     int    `json:"levels"`   // highest compaction level below the snapshot level (default 2)
 	NoRetention bool  `json:"noRetention"` // RetentionEnabled = false (deletion delegated to the storage provider)
 	Faults     bool   `json:"faults"`   // wrap the replica client in the fault injector
+	Full       bool   `json:"full"`     // record the full pre-state before litestream calls (Trace_CoreSync.tla)
 	RestoreEach bool  `json:"restoreEach"` // restore the latest state after every litestream/replica step (C05-C07)
 }
 
@@ -84,6 +85,7 @@ type Event struct {
 	Open    bool     `json:"open"`    // DB.IsOpen()
 	Handles bool     `json:"handles"` // the DB holds an open SQL handle
 	NDBs    int      `json:"ndbs"`    // databases managed by the Store
+	Pre     PreState `json:"pre"`
 }
 
 type AuditTx struct {
@@ -877,6 +879,10 @@ func RunCase(c Case, baseDir string, hooks func(r *Runner, ls *litestream.DB)) (
 		ev.Op = argStr(st, 0, "")
 		ev.Arg = argStr(st, 1, "")
 		ev.N = argInt(st, 1, 0)
+		if c.Cfg.Full && r.lsUp && r.ls != nil && r.ls.SQLDB() != nil && strings.HasPrefix(ev.Op, "Ls") {
+			ev.Pre = ObservePre(r.dbPath, filepath.Join(r.metaLTXDir(), "0"), c.Cfg.PageSize, r.dict)
+			ev.Pre.ToEnd, _, _, _ = r.ls.VerifSyncState()
+		}
 		ev.Res, ev.Ack = r.Step(st, false)
 		r.observe(&ev)
 		isRepl := strings.HasPrefix(ev.Op, "Ls") || ev.Op == "Compact" || ev.Op == "Snapshot" || strings.HasSuffix(ev.Op, "Retention") || strings.HasSuffix(ev.Op, "RetentionAbs") || ev.Op == "RetByTXID"
@@ -917,5 +923,5 @@ func RunCase(c Case, baseDir string, hooks func(r *Runner, ls *litestream.DB)) (
 func blank(c Case, i int) Event {
 	return Event{T: c.ID, I: i, Res: "ok", Src: DBState{Pg: []int{}}, Integ: "none", Jrnl: "none", NewL0: []LtxObs{},
 		Remote: [][]int{}, Local: [][]int{}, Rest: NoRestore(), Ctl: -1, Cfg: c.Cfg, Audit: []AuditTx{}, Seq: -1, LockN: -1,
-		NewRem: []LtxObs{}, Calls: []string{}}
+		NewRem: []LtxObs{}, Calls: []string{}, Pre: EmptyPre()}
 }
